@@ -286,3 +286,121 @@ Definition honest (aok : meth -> bool) (Cl Sv : policy) (sid : N) : hout :=
              (if se then Some (KDH (p_pub Cl) (p_pub Sv)) else None)
              sid sid)
   end.
+
+(* ==========================================================================
+   Second part (C10 extension): Integrity and the client's token pre-filter.
+   Everything above is unchanged (Model/Handshake.v builds on it); the
+   definitions below ADD the two things the first part leaves out.
+
+     negotiateSecurity incl. the Integrity reconciliation   ~ decide_i, negotiate_i
+     hasCompatibleToken (one boolean per client/server pair) ~ [tok]
+     the intersection loop of handleClientAuthentication     ~ cl_methods_t
+     ClientHandshake x ServerHandshake                       ~ flow_i, honest_i
+   ========================================================================== *)
+
+Inductive nerr_i := EBase (e : nerr) | EIntReqNever | EIntNeverReq | ENoCipherInteg.
+
+(* negotiateSecurity with the Integrity levels: REQUIRED against NEVER is an
+   incompatibility (checked after the two Encryption incompatibilities, before
+   shouldEncrypt is stored: Authentication/Encryption/Enact are still false),
+   REQUIRED integrity without a negotiated cipher is an error (checked after the
+   "encryption required but no cipher" return, before the "no method" return). *)
+Definition decide_i (sA cA sE cE sI cI : lvl) (hm hk : bool) : option nerr_i * (bool * bool * bool) :=
+  if is_rq sA && is_nv cA then (Some (EBase EAuthReqNever), (true, false, false))
+  else if is_nv sA && is_rq cA then (Some (EBase EAuthNeverReq), (false, false, false))
+  else
+    let sa := should sA cA hm in
+    if is_rq sE && is_nv cE then (Some (EBase EEncReqNever), (false, true, false))
+    else if is_nv sE && is_rq cE then (Some (EBase EEncNeverReq), (false, false, false))
+    else if is_rq sI && is_nv cI then (Some EIntReqNever, (false, false, false))
+    else if is_nv sI && is_rq cI then (Some EIntNeverReq, (false, false, false))
+    else
+      let se := should sE cE hk in
+      if se && negb hk then (Some (EBase ENoCipher), (sa, se, sa || se))
+      else if (is_rq sI || is_rq cI) && negb hk then (Some ENoCipherInteg, (sa, se, sa || se))
+      else if sa && negb hm then (Some (EBase ENoMethod), (sa, se, sa || se))
+      else (None, (sa, se, sa || se)).
+
+Record nres_i := mkNi {
+  ni_err : option nerr_i; ni_auth : bool; ni_enc : bool; ni_enact : bool;
+  ni_meth : meth; ni_ciph : option ciph
+}.
+
+Definition negotiate_i (sA cA sE cE sI cI : lvl) (sm cm : list meth) (sc cc : list ciph) : nres_i :=
+  let m := neg_meth sm cm in
+  let k := neg_ciph sc cc in
+  match decide_i sA cA sE cE sI cI (has_meth m) (has_ciph k) with
+  | (e, (a, en, ea)) => mkNi e a en ea m k
+  end.
+
+(* isTokenMethod *)
+Definition is_token (m : meth) : bool := match m with mTOK | mIDT | mSCI => true | _ => false end.
+
+(* handleClientAuthentication's intersection: own methods the server also lists;
+   a token method only when hasCompatibleToken says so.  [tok] is that one
+   boolean: it does not depend on which token method is asked about (the probe
+   looks at the client's Token / TokenFile / TokenDir against the TrustDomain /
+   IssuerKeys of the server's response ad). *)
+Definition cl_methods_t (tok : bool) (cm sm : list meth) : list meth :=
+  filter (fun m => mem m sm && (negb (is_token m) || tok)) cm.
+
+Definition flow_i (cA sA cE sE cI sI : lvl) (hm hk hm' hk' cms_nil lo : bool) : aout :=
+  match decide_i sA cA sE cE sI cI hm hk with
+  | (Some _, _) => ADenied
+  | (None, (sa, _, _)) =>
+      let s_enc_fails := negb hk && (is_rq sE || is_rq sI) in
+      let c_enc_fails := negb hk' && (is_rq cE || is_rq cI) in
+      (* the server's response ad says Authentication/Encryption YES|NO and Integrity "NO" *)
+      match decide_i Ot cA Ot cE Ot cI hm' hk' with
+      | (Some _, _) => AFail true (sa || s_enc_fails)
+      | (None, _) =>
+          let finish (ran : bool) :=
+            if s_enc_fails then AFail true true
+            else if c_enc_fails then AFail true false
+            else if negb (Bool.eqb hk hk') then AFail true false
+            else AOk ran sa hk' hk in
+          if sa then
+            if cms_nil then AFail true true
+            else if lo then finish true else AFail true true
+          else
+            if is_rq cA then AFail true s_enc_fails else finish false
+      end
+  end.
+
+Definition consulted_i (cA sA cE sE cI sI : lvl) (hm hk hm' hk' cms_nil : bool) : bool :=
+  match decide_i sA cA sE cE sI cI hm hk with
+  | (None, (true, _, _)) =>
+      match decide_i Ot cA Ot cE Ot cI hm' hk' with (None, _) => negb cms_nil | _ => false end
+  | _ => false
+  end.
+
+(* [tok]: the client holds a token usable against this server *)
+Definition honest_i (aok : meth -> bool) (tok : bool) (Cl Sv : policy) (sid : N) : hout :=
+  let m := neg_meth (p_meths Sv) (p_meths Cl) in
+  let k := neg_ciph (p_ciphs Sv) (p_ciphs Cl) in
+  let sm' := seen_meths (p_meths Sv) m in
+  let m' := neg_meth sm' (p_meths Cl) in
+  let k' := neg_ciph (p_ciphs Sv) (p_ciphs Cl) in
+  let cms := cl_methods_t tok (p_meths Cl) sm' in
+  let cms_nil := match cms with [] => true | _ => false end in
+  let lp := auth_loop (S (length cms)) aok (p_meths Sv) cms (mask cms) in
+  let used := consulted_i (p_auth Cl) (p_auth Sv) (p_enc Cl) (p_enc Sv) (p_integ Cl) (p_integ Sv)
+                (has_meth m) (has_ciph k) (has_meth m') (has_ciph k') cms_nil in
+  let rounds := if used then fst lp else [] in
+  let ran := if used then match snd lp with LOk x => Some x | _ => None end else None in
+  match flow_i (p_auth Cl) (p_auth Sv) (p_enc Cl) (p_enc Sv) (p_integ Cl) (p_integ Sv)
+               (has_meth m) (has_ciph k) (has_meth m') (has_ciph k') cms_nil
+               (match snd lp with LOk _ => true | _ => false end) with
+  | ADenied => HDenied
+  | AFail ce se => HFail ce se rounds
+  | AOk ca sa ce se =>
+      HOk (mkOk rounds ran ca sa ce se
+             (match ran with
+              | Some x => match offered_under cms (bit x) with Some mc => mc | None => x end
+              | None => m' end)
+             (match ran with Some x => x | None => m end)
+             ce se
+             (if ce then Some (KDH (p_pub Cl) (p_pub Sv)) else None)
+             (if se then Some (KDH (p_pub Cl) (p_pub Sv)) else None)
+             sid sid)
+  end.
